@@ -468,6 +468,7 @@ func writeEvidence(cfg PropCfg, tier string, seed int64, m *pk.Stats, wall float
 		}
 	}
 	sort.Strings(exhSubs)
+	exh = len(exhSubs) > 0 // the named table sub-checks enumerated their finite space completely
 	cov := map[string]any{
 		"evaluations":         m.Evaluations,
 		"distinct_nontrivial": len(m.NonTrivial),
